@@ -78,7 +78,7 @@ CONFIG = {
         "timer_delivery", "timer_stop_result",
     ],
     "harnesses": [
-        {"cmd": "clock", "cases_quick": 400, "cases_thorough": 12000, "shards_quick": 8, "shards_thorough": 32},
+        {"cmd": "clock", "cases_quick": 400, "cases_thorough": 8000, "shards_quick": 8, "shards_thorough": 32},
     ],
     "static_obligations": [threshold_wiring],
     "trusted_base": [
